@@ -123,32 +123,40 @@ def _wk(w):
 
 WORLD_DECLS = {"io": lambda w: __import__("contracts.io", fromlist=["declare"]).declare(w),
                "mc": lambda w: __import__("contracts.multichannel", fromlist=["declare"]).declare(w),
-               "wk": _wk}
+               "wk": _wk,
+               "mr": lambda w: __import__("contracts.channel", fromlist=["declare_dispatch"]).declare_dispatch(w)}
 EXECTASK = f"wk::{GB}:WorkerGateway.executetask"
+DISPATCH = f"mr::{GB}:Message.received"     # the protocol's decision table: which handler, for which channel, with which arguments (history variable)
 
 SPECS = {
     "C02": dict(
         title="each CHANNEL_DATA frame is decoded once and goes to exactly the callback or queue registered for its id, behind everything delivered earlier; other channels are untouched (frame); send emits exactly one frame or nothing",
         targets=[C + "send", C + "receive", C + "__init__", C + "setcallback", F + "new", F + "_local_receive", MRC, GBR,
                  # "send emits exactly one frame": the frame is contiguous on the connection only if every writer holds the send lock (contracts of C08)
-                 f"io::{GB}:BaseGateway._send", f"io::{GB}:Message.to_io"], scenarios=["c02_order", "c02_dropped_callback", "c10_callback"],
-        extra_worlds="io",
-        heavy={F + "_local_receive": 6, GBR: 8, MRC: 4, C + "setcallback": 4},
+                 f"io::{GB}:BaseGateway._send", f"io::{GB}:Message.to_io",
+                 # "each frame is decoded once": the read side returns exactly the frame's bytes (an over-read swallows the next frame)
+                 f"io::{GB}:Message.from_io", f"io::{GB}:Popen2IO.read", "io::execnet.gateway_socket:SocketIO.read", f"io::{GB}:Popen2IO.write", "io::execnet.gateway_socket:SocketIO.write",
+                 DISPATCH], scenarios=["c02_order", "c02_dropped_callback", "c10_callback"],
+        extra_worlds="io,mr",
+        heavy={F + "_local_receive": 6, GBR: 8, MRC: 4, C + "setcallback": 4, DISPATCH: 6},
         extra=["items sent before the peer holds the channel object are dropped by _local_receive (`pass  # drop data`): the contract states it (unknown id: nothing changes)"],
         canary=(F + "_local_receive", "item-queued-at-the-head", canary_c02)),
     "C03": dict(
         title="close: one close frame after the data (none if the peer closed first), ENDMARKER behind pending items, both tables forget the id; receive re-queues ENDMARKER and raises EOFError again and again; closing side state; second close is a no-op",
         targets=[C + "close", C + "receive", C + "waitclose", C + "isclosed", C + "send", C + "_getremoteerror", F + "_local_close", F + "_no_longer_opened", C + "__del__",
-                 EXECTASK],    # the automatic close at the end of a remote_exec body: exactly one close call on every exit
-        scenarios=["c03_close"], extra_worlds="wk",
-        heavy={C + "close": 4, F + "_local_close": 4, EXECTASK: 8},
+                 EXECTASK,     # the automatic close at the end of a remote_exec body: exactly one close call on every exit
+                 DISPATCH],    # a close frame (with or without error) is a full close, only LAST_MESSAGE is a half close
+        scenarios=["c03_close"], extra_worlds="wk,mr",
+        heavy={C + "close": 4, F + "_local_close": 4, EXECTASK: 8, DISPATCH: 6},
         extra=["Channel.__del__: what it tells the peer is under contract; WHEN it runs (reference counting / GC) is the interpreter's business"],
         canary=(C + "receive", "endmarker-consumed-not-requeued", canary_c03)),
     "C04": dict(
         title="a stream ending inside or between frames raises EOFError out of from_io (C08); every exit of the receiver loop reaches the epilogue, which sweeps every registered channel (ENDMARKER, receiveclosed) and callback, sets finished and closes the IO; new() then raises OSError",
         targets=[GBR, F + "_finished_receiving", F + "new", F + "_local_close", F + "_no_longer_opened", C + "send", C + "receive", C + "waitclose",
                  # the crash-point quantifier lives in the read loops and from_io: exactly n bytes or EOFError, for every cut offset (contracts of C08)
-                 f"io::{GB}:Popen2IO.read", f"io::execnet.gateway_socket:SocketIO.read", f"io::{GB}:Message.from_io"], scenarios=["c04_kill"],
+                 f"io::{GB}:Popen2IO.read", f"io::execnet.gateway_socket:SocketIO.read", f"io::{GB}:Message.from_io",
+                 # the epilogue's two half closes really close the direction they name (after a loss this side's sends must fail, not vanish into a half open socket)
+                 f"io::{GB}:Popen2IO.close_write", f"io::{GB}:Popen2IO.close_read", "io::execnet.gateway_socket:SocketIO.close_write", "io::execnet.gateway_socket:SocketIO.close_read"], scenarios=["c04_kill", "c04_kill_socket"],
         extra_worlds="io", cut_battery=True,
         heavy={GBR: 8, F + "_finished_receiving": 4, F + "_local_close": 3},
         extra=["kernel behaviour on process death (EOF delivery, EPIPE) is the OS contract; real SIGKILLs only in the native scenario",
@@ -157,17 +165,18 @@ SPECS = {
     "C07": dict(
         title="a raising callback: the item was passed once, one CHANNEL_CLOSE_ERROR frame goes to the peer, a RemoteError (never another type) is recorded on the live channel, the id is forgotten, and no Exception escapes the handler (the receiver loop goes on); errors are handed out FIFO, each once",
         targets=[F + "_local_receive", F + "_local_close", F + "_no_longer_opened", C + "_getremoteerror", C + "receive", C + "waitclose", C + "close", MRC, GBR,
-                 EXECTASK],    # a raising remote body: the channel is closed with the formatted error text (any exception but EOFError/KeyboardInterrupt)
-        scenarios=["c07_errors"], extra_worlds="wk",
-        heavy={F + "_local_receive": 6, GBR: 8, MRC: 4, C + "close": 3, EXECTASK: 8},
+                 EXECTASK,     # a raising remote body: the channel is closed with the formatted error text (any exception but EOFError/KeyboardInterrupt)
+                 DISPATCH],    # the error text of a CHANNEL_CLOSE_ERROR frame is decoded with the class defaults (never the gateway's pair) and handed to _local_close
+        scenarios=["c07_errors"], extra_worlds="wk,mr",
+        heavy={F + "_local_receive": 6, GBR: 8, MRC: 4, C + "close": 3, EXECTASK: 8, DISPATCH: 6},
         extra=["callbacks raising SystemExit/KeyboardInterrupt/other non-Exception BaseExceptions propagate out of the receiver by the code's evident intent (`except Exception`): the callback-interrupt case",
                "executetask's exception arm (remote body raises): under contract in world wk; the text itself (_geterrortext: type, message, traceback) is the traceback module's"],
         canary=(F + "_local_receive", "raising-callback-leaves-the-id-registered", canary_c07)),
     "C10": dict(
         title="setcallback drains the queue in order under the receiver lock (inductive invariant: delivered prefix + remaining queue == old queue), registers only an open channel, re-queues ENDMARKER; _local_receive passes each later item once; the endmarker goes out exactly when a record is popped",
         targets=[C + "setcallback", F + "_local_receive", F + "_no_longer_opened", F + "_local_close", F + "_finished_receiving", C + "receive",
-                 "mc::execnet.multi:MultiChannel.make_receive_queue"], scenarios=["c10_callback", "c10_dropped_endmarker"], extra_worlds="mc",
-        heavy={C + "setcallback": 6, F + "_local_receive": 6, F + "_finished_receiving": 4},
+                 "mc::execnet.multi:MultiChannel.make_receive_queue", DISPATCH], scenarios=["c10_callback", "c10_dropped_endmarker", "c10_dropped_endmarker_on_loss"], extra_worlds="mc,mr",
+        heavy={C + "setcallback": 6, F + "_local_receive": 6, F + "_finished_receiving": 4, DISPATCH: 6},
         extra=["MultiChannel.make_receive_queue: every member channel gets a callback with exactly the endmarker asked for (world mc); that the shared queue then carries the per-channel guarantee "
                "is the composition with setcallback's contract, not a separate proof", "setcallback racing with a receive() that sits between get and re-put of ENDMARKER"],
         canary=(C + "setcallback", "receive-still-possible-after-setcallback", canary_c10)),
